@@ -35,11 +35,20 @@ func e15Case(seed uint64, kind string, k int, v int) Case {
 			u.mutate(rng, srv)
 		}
 		lk := map[string]kit.ListFaultKind{"list-error": kit.ListErr, "non-list": kit.ListNonList, "non-objects": kit.ListNonObjects,
-			"no-accessor": kit.ListNoAccessor, "nil-nil": kit.ListNilNil, "status-object": kit.ListStatus, "error-with-empty-list": kit.ListErrAndList}[kind]
+			"no-accessor": kit.ListNoAccessor, "nil-nil": kit.ListNilNil, "status-object": kit.ListStatus, "error-with-empty-list": kit.ListErrAndList,
+			"list-error-canceled": kit.ListErr, "list-error-deadline": kit.ListErr}[kind]
+		// errors that look like shutdown artefacts although nobody is shutting down
+		var lerr error
+		switch kind {
+		case "list-error-canceled":
+			lerr = []error{context.Canceled, fmt.Errorf("client rate limiter: %w", context.Canceled)}[v%2]
+		case "list-error-deadline":
+			lerr = []error{context.DeadlineExceeded, fmt.Errorf("http2: %w", context.DeadlineExceeded)}[v%2]
+		}
 		lat := []time.Duration{0, P / 3, 2 * P}[rng.Intn(3)]
 		srv.ListPlan = func(i int) kit.ListFault {
 			if i == k && kind != "close" && kind != "cancel" {
-				return kit.ListFault{Kind: lk, Latency: lat}
+				return kit.ListFault{Kind: lk, Latency: lat, Err: lerr}
 			}
 			return kit.ListFault{}
 		}
@@ -124,6 +133,8 @@ func e15Case(seed uint64, kind string, k int, v int) Case {
 				r.V("C14", "failure-not-reported", "failure %s at list #%d: Done() closed but Error() says still running", kind, k)
 			} else if (kind == "list-error" || kind == "error-with-empty-list") && !errors.Is(e, kit.ErrInjected) {
 				r.V("C14", "cause-lost", "failure %s at list #%d: Error() = %v does not carry the client's error", kind, k, e)
+			} else if lerr != nil && !errors.Is(e, errors.Unwrap(lerr)) && !errors.Is(e, lerr) {
+				r.V("C14", "cause-lost", "failure %s at list #%d: Error() = %v does not carry the client's error %v", kind, k, e, lerr)
 			}
 		}
 		// subtree
@@ -162,7 +173,7 @@ func init() {
 	register("E15", func(tier string, seed uint64) []Case {
 		var cases []Case
 		nv := tierPick(tier, 3, 1000)
-		for _, kind := range []string{"list-error", "non-list", "non-objects", "no-accessor", "nil-nil", "status-object", "error-with-empty-list", "close", "cancel"} {
+		for _, kind := range []string{"list-error", "non-list", "non-objects", "no-accessor", "nil-nil", "status-object", "error-with-empty-list", "close", "cancel", "list-error-canceled", "list-error-deadline"} {
 			for k := 1; k <= 4; k++ {
 				for v := 0; v < nv; v++ {
 					cases = append(cases, e15Case(seed, kind, k, v))
